@@ -360,8 +360,6 @@ pub fn parse(bytes: &[u8], strict: bool) -> Result<Parsed, String> {
                     if strict && !stack.is_empty() {
                         issue(&mut out, IssueKind::OperandCount, stack_pos, format!("'BI' takes no operands, got {}", stack.len()));
                     }
-                    let before = p.issues.len();
-                    let _ = before;
                     for m in p.issues.drain(..).collect::<Vec<_>>() {
                         issue(&mut out, IssueKind::Token, tok_pos, m);
                     }
@@ -648,14 +646,14 @@ mod tests {
         // §8.9.7 EXAMPLE shape
         let src = b"q BI /W 2 /H 2 /BPC 8 /CS /G ID \x00\xff EI x\nEI Q";
         let o = ops(src);
-        assert_eq!(o.len(), 3);
+        assert_eq!(o.len(), 5); // q BI x EI Q: the second EI is a stray keyword
         assert_eq!(o[1].name(), "BI");
         assert_eq!(o[1].operands[0].dict_get("W"), Some(&Obj::Int(2)));
         // first white-space EI white-space ends the data when no /L is given
         assert_eq!(o[1].operands[1], Obj::str(b"\x00\xff"));
         assert_eq!(o[2].name(), "x");
         // with /L the embedded " EI " is data
-        let o = strict_ok(b"q BI /W 2 /H 2 /BPC 8 /CS /G /L 9 ID \x00\xff EI x\nEI Q");
+        let o = strict_ok(b"q BI /W 2 /H 2 /BPC 8 /CS /G /L 7 ID \x00\xff EI x\nEI Q");
         assert_eq!(o.len(), 3);
         assert_eq!(o[1].operands[1], Obj::str(b"\x00\xff EI x"));
         assert_eq!(o[2].name(), "Q");
